@@ -68,9 +68,19 @@ def link_order(built):
 def one(M, rec, rng, g, desc, kind, symvals):
     pars = g.pars()
     _, vals = g.values(desc, allow_inf=False)
+    ins, outs, org, dst = R.topology(desc)
+    merges = [n for n in desc["nodes"] if len(ins[n]) >= 2]
+    if merges and rng.random() < 0.2:
+        # nothing flows into a merge: the model's merge speed is 0/0 there; whatever the library returns
+        # (NaN today) must still not depend on the construction order, the names or the scaling
+        n = rng.choice(merges)
+        for l in ins[n]:
+            vals[l["id"]]["rho" if rng.random() < 0.8 else "v"][-1] = 0.0
+        rec.count("cases_with_zero_inflow_at_a_merge")
     if R.is_singular(desc, vals):
-        rec.count("skipped_singular")
-        return
+        # the relations are between two runs of the library, no reference is involved: a singular point
+        # of the model is compared like any other (NaN == NaN)
+        rec.count("singular_points_compared")
     ctx = {"desc": desc, "pars": pars, "vals": vals, "engine": kind}
     try:
         base, b0 = step_next(M, desc, vals, pars, kind, None, None, symvals)
@@ -79,7 +89,6 @@ def one(M, rec, rng, g, desc, kind, symvals):
         rec.seen("failed", repr(e)[:100])
         return
     order0 = link_order(b0)
-    ins, outs, org, dst = R.topology(desc)
     # (a) construction order / API forms
     for _ in range(2):
         d2 = copy.deepcopy(desc)
@@ -179,7 +188,7 @@ def one(M, rec, rng, g, desc, kind, symvals):
             tot = sum(q0.values())
             sb = sum(m["beta"] for m in outs[n])
             mag = sum(abs(x) for x in q0.values()) + sum((abs(base[m["id"]]["rho"][0]) + abs(vals[m["id"]]["rho"][0])) * m["lam"] * m["L"] / T for m in outs[n])
-            if abs(tot) < 1e-6:
+            if not math.isfinite(tot) or abs(tot) < 1e-6 or not math.isfinite(mag):
                 continue
             for m in outs[n]:
                 rec.count("share_checks")
